@@ -812,6 +812,178 @@ std::string runMutate(const Case &c) {
   return "";
 }
 
+
+// ---------------------------------------------------------------- usage mode (C18)
+std::string markerOf(size_t i) { return "MK" + std::to_string(i) + "QX"; }
+
+rc::Gen<Case> genUsage() {
+  return rc::gen::exec([]() {
+    Case c;
+    Profile pf = profileFor("valid");
+    pf.inertExtras = false;
+    pf.minArgs = 1; pf.maxArgs = 10;
+    c.cfg = genConfig(pf);
+    if (c.cfg.args.empty()) { c.discarded = true; c.discardWhy = "no_args"; return c; }
+    Config &cfg = c.cfg;
+    // usage relevant flags
+    cfg.flags &= (F_NO_ABBR | F_END_VALUES);
+    cfg.flags |= pick(50) ? F_HELP_SHORT : F_HELP_LONG;
+    if (pick(40)) cfg.flags |= F_HELP_SHORT | F_HELP_LONG;
+    for (int bit : {F_USAGE_HIDDEN, F_ARG_HIDDEN, F_USAGE_DEPRECATED, F_ARG_DEPRECATED, F_USAGE_SHORT, F_USAGE_LONG, F_LIST_ARG_VAR}) if (pick(35)) cfg.flags |= bit;
+    if (pick(50)) cfg.flags |= F_HELP_ARG;
+    if (pick(40)) cfg.flags |= F_HELP_ARG_FULL;
+    if (pick(50)) cfg.flags |= (*range<int>(60, 239)) << 20;
+    // visibility attributes, descriptions with a unique marker word, long keys around the same-line threshold
+    const std::vector<std::string> vocab = {"the", "value", "of", "this", "argument", "is", "used", "to", "select", "input", "files", "and", "more", "x", "configuration"};
+    std::set<std::string> longKeys;
+    for (auto &a : cfg.args) longKeys.insert(a.longKey);
+    for (size_t i = 0; i < cfg.args.size(); ++i) {
+      ArgDef &a = cfg.args[i];
+      if (a.shortKey == 'h') { a.shortKey = 'H'; for (auto &ch : a.spec) if (ch == 'h' && (&ch == &a.spec[0] || *(&ch - 1) == '-' || *(&ch - 1) == ',') && (&ch == &a.spec.back() || *(&ch + 1) == ',')) ch = 'H'; }   // -h is the help argument here
+      a.hidden = pick(30);
+      a.deprecated = false; a.replacedBy.clear();
+      if (!a.mandatory && pick(30)) { a.deprecated = true; if (pick(50)) a.replacedBy = "--new-name"; }
+      // only plain scalar destinations (and tuples) can print a default value; for the others the library default (off) is kept
+      { int k = slotKinds()[a.slot]; a.printDefault = (k == K_INT || k == K_LONG || k == K_UINT || k == K_DOUBLE || k == K_STRING || k == K_TUPLE_ISI) ? *range<int>(0, 2) : 0; }
+      if (!a.longKey.empty() && pick(25)) {
+        std::string k = "very-long-argument-name-number-" + std::to_string(i) + "-";
+        size_t want = *range<size_t>(36, 46);
+        while (k.size() < want) k += 'z';
+        a.longKey = k;
+        a.spec = a.shortKey ? std::string(1, a.shortKey) + "," + k : k;
+      }
+      int nw = *rc::gen::weightedOneOf<int>({{3, range<int>(1, 6)}, {2, range<int>(7, 25)}, {1, range<int>(26, 60)}});
+      int markerAt = *range<int>(0, nw - 1);
+      a.desc.clear();
+      for (int w = 0; w < nw; ++w) { if (w) a.desc += ' '; a.desc += (w == markerAt) ? markerOf(i) : oneOf(vocab); }
+    }
+    // the line
+    Variant v;
+    v.in.argv = {"prog"};
+    int kind = *range<int>(0, 9);
+    if (kind <= 6) {
+      // full usage with settings given before the help argument
+      if ((cfg.flags & F_ARG_HIDDEN) && !(cfg.flags & F_USAGE_HIDDEN) && pick(60)) v.in.argv.push_back("--print-hidden");
+      if ((cfg.flags & F_ARG_DEPRECATED) && !(cfg.flags & F_USAGE_DEPRECATED) && pick(60)) v.in.argv.push_back("--print-deprecated");
+      bool s = (cfg.flags & F_USAGE_SHORT) && pick(50);
+      if (s) v.in.argv.push_back("--help-short");
+      else if ((cfg.flags & F_USAGE_LONG) && pick(50)) v.in.argv.push_back("--help-long");
+      bool haveShort = cfg.flags & F_HELP_SHORT, haveLong = cfg.flags & F_HELP_LONG;
+      v.in.argv.push_back(haveShort && (!haveLong || pick(50)) ? "-h" : "--help");
+      v.note = "usage";
+    } else if (cfg.flags & (F_HELP_ARG | F_HELP_ARG_FULL)) {
+      std::string helpKey = (cfg.flags & F_HELP_ARG) && (!(cfg.flags & F_HELP_ARG_FULL) || pick(50)) ? "--help-arg" : "--help-arg-full";
+      std::string key;
+      if (pick(80)) { const ArgDef &a = oneOf(cfg.args); key = (a.shortKey && (a.longKey.empty() || pick(50))) ? std::string(1, a.shortKey) : a.longKey; }
+      else key = pick(50) ? "Q" : "no-such-argument";
+      v.in.argv.push_back(helpKey + "=" + key);
+      v.note = "help-arg " + key;
+    } else { c.discarded = true; c.discardWhy = "no_help_arg_flag"; return c; }
+    c.vars.push_back(v);
+    return c;
+  });
+}
+
+size_t countOccurrences(const std::string &hay, const std::string &needle) {
+  size_t n = 0, p = 0;
+  while ((p = hay.find(needle, p)) != std::string::npos) { ++n; p += needle.size(); }
+  return n;
+}
+
+std::string runUsage(const Case &c) {
+  auto &st = stats();
+  if (c.discarded) { st.cls("discarded." + c.discardWhy); return ""; }
+  const Config &cfg = c.cfg;
+  const Variant &v = c.vars[0];
+  RealResult r = runReal(cfg, v.in);
+  std::string where = "argv " + argvText(v.in.argv) + ": ";
+  if (r.setupThrew) return where + "library refused the configuration: " + r.what;
+  if (r.threw) return where + "help evaluation threw: " + r.what;
+  const std::string &out = r.out;
+  auto has = [&](const std::string &w) { return std::find(v.in.argv.begin(), v.in.argv.end(), w) != v.in.argv.end(); };
+  if (v.note.compare(0, 8, "help-arg") == 0) {
+    std::string key = v.note.substr(9);
+    int target = -1;
+    for (size_t i = 0; i < cfg.args.size(); ++i) if ((key.size() == 1 && cfg.args[i].shortKey == key[0]) || (key.size() > 1 && cfg.args[i].longKey == key)) target = static_cast<int>(i);
+    for (size_t i = 0; i < cfg.args.size(); ++i) {
+      size_t n = countOccurrences(out, markerOf(i));
+      if (static_cast<int>(i) == target) { if (n != 1) return where + "help for argument '" + key + "' shows its description " + std::to_string(n) + " times"; }
+      else if (n != 0) return where + "help for argument '" + key + "' also shows the description of '" + cfg.args[i].spec + "'";
+    }
+    if (target < 0) {
+      if (r.err.find("is unknown") == std::string::npos) return where + "unknown argument '" + key + "' was not reported as unknown";
+      st.cls("usage.help_arg_unknown");
+    } else st.cls("usage.help_arg");
+    st.markNontrivial();
+    return "";
+  }
+  // full usage
+  const bool printHidden = (cfg.flags & F_USAGE_HIDDEN) || has("--print-hidden");
+  const bool printDeprecated = (cfg.flags & F_USAGE_DEPRECATED) || has("--print-deprecated");
+  const bool shortOnly = has("--help-short"), longOnly = has("--help-long");
+  const size_t posMand = out.find("Mandatory arguments:"), posOpt = out.find("Optional arguments:");
+  // entries: lines indented by exactly 3 blanks that start with '-'
+  std::vector<std::pair<size_t, std::string>> entryStarts;   // offset, key text
+  {
+    size_t p = 0;
+    while (p < out.size()) {
+      size_t e = out.find('\n', p);
+      if (e == std::string::npos) e = out.size();
+      std::string line = out.substr(p, e - p);
+      if (line.size() > 4 && line.compare(0, 3, "   ") == 0 && line[3] == '-') {
+        size_t ke = line.find(' ', 3);
+        entryStarts.push_back({p, line.substr(3, ke == std::string::npos ? std::string::npos : ke - 3)});
+      }
+      p = e + 1;
+    }
+  }
+  size_t visible = 0, invisible = 0;
+  for (size_t i = 0; i < cfg.args.size(); ++i) {
+    const ArgDef &a = cfg.args[i];
+    bool vis = (printHidden || !a.hidden) && (printDeprecated || !a.deprecated) && (!shortOnly || a.shortKey) && (!longOnly || !a.longKey.empty());
+    size_t n = countOccurrences(out, markerOf(i));
+    std::string who = "argument '" + a.spec + "'" + (a.hidden ? " [hidden]" : "") + (a.deprecated ? " [deprecated]" : "") + (a.mandatory ? " [mandatory]" : "");
+    if (!vis) { ++invisible; if (n != 0) return where + who + " must not be listed but appears " + std::to_string(n) + " times"; continue; }
+    ++visible;
+    if (n != 1) return where + who + " must be listed exactly once but appears " + std::to_string(n) + " times";
+    size_t mp = out.find(markerOf(i));
+    // caption
+    if (a.mandatory) {
+      if (posMand == std::string::npos || mp < posMand || (posOpt != std::string::npos && mp > posOpt)) return where + who + " is not listed under the mandatory caption";
+    } else if (posOpt == std::string::npos || mp < posOpt) return where + who + " is not listed under the optional caption";
+    // its entry: last entry start before the marker
+    int ei = -1;
+    for (size_t k = 0; k < entryStarts.size(); ++k) if (entryStarts[k].first < mp) ei = static_cast<int>(k);
+    if (ei < 0) return where + who + ": description is not preceded by a key line";
+    std::string expectKey = shortOnly ? std::string("-") + a.shortKey : longOnly ? "--" + a.longKey
+                            : (a.shortKey ? std::string("-") + a.shortKey + (a.longKey.empty() ? "" : ",--" + a.longKey) : "--" + a.longKey);
+    if (entryStarts[static_cast<size_t>(ei)].second != expectKey) return where + who + " is listed with the keys '" + entryStarts[static_cast<size_t>(ei)].second + "', expected '" + expectKey + "'";
+    size_t endOfEntry = static_cast<size_t>(ei) + 1 < entryStarts.size() ? entryStarts[static_cast<size_t>(ei) + 1].first : out.size();
+    std::string entry = out.substr(entryStarts[static_cast<size_t>(ei)].first, endOfEntry - entryStarts[static_cast<size_t>(ei)].first);
+    auto expectNote = [&](const char *note, bool expected) -> std::string {
+      bool present = entry.find(note) != std::string::npos;
+      if (present != expected) return where + who + ": '" + note + "' " + (expected ? "missing" : "unexpected") + " in its entry";
+      return "";
+    };
+    std::string e;
+    if (a.printDefault) { e = expectNote("Default value:", !a.mandatory && a.printDefault == 1); if (!e.empty()) return e; }
+    e = expectNote("Check:", !a.checks.empty()); if (!e.empty()) return e;
+    e = expectNote("Constraint:", !a.constraints.empty()); if (!e.empty()) return e;
+    e = expectNote("[hidden]", a.hidden); if (!e.empty()) return e;
+    e = expectNote("[deprecated]", a.deprecated && a.replacedBy.empty()); if (!e.empty()) return e;
+    e = expectNote("[replaced by", a.deprecated && !a.replacedBy.empty()); if (!e.empty()) return e;
+    if (a.longKey.size() >= 36) st.cls("usage.long_key_own_line");
+  }
+  st.cls("usage.full");
+  if (printHidden) st.cls("usage.print_hidden");
+  if (printDeprecated) st.cls("usage.print_deprecated");
+  if (shortOnly) st.cls("usage.short_only");
+  if (longOnly) st.cls("usage.long_only");
+  if (usageLineLength(cfg.flags)) st.cls("usage.line_length_set");
+  if (invisible >= 1 && visible >= 2 && (printHidden || printDeprecated || shortOnly || longOnly || usageLineLength(cfg.flags))) st.markNontrivial();
+  return "";
+}
+
 // non-trivial rule for the valid modes is evaluated from the case content
 void markValidNontrivial(const Case &c, const std::string &mode) {
   if (c.discarded || c.vars.empty()) return;
@@ -864,6 +1036,8 @@ struct Init {
     g.gen = genGroups; g.run = runGroups; g.show = showCase; g.parse = parseCase;
     auto &mu = addMode<Case>("mutate");
     mu.gen = genMutate; mu.run = runMutate; mu.show = showCase; mu.parse = parseCase;
+    auto &us = addMode<Case>("usage");
+    us.gen = genUsage; us.run = runUsage; us.show = showCase; us.parse = parseCase;
     auto &b = addMode<Case>("break");
     b.gen = genBreak; b.run = runBreak; b.show = showCase; b.parse = parseCase;
   }
